@@ -118,7 +118,11 @@ def extract_type(t):
         text, line = rustcut.cut_type(src, t['kind'], t['name'])
     ctx = rules.Ctx()
     text = rustcut.strip_comments(text)
+    dm = re.search(r'^[ \t]*#\[derive\(([^\]]*)\)\]\s*\n', text, flags=re.M)
+    has_copy = bool(dm and re.search(r'\bCopy\b', dm.group(1)))
     text = re.sub(r'^[ \t]*#\[derive\([^\]]*\)\]\s*\n', '', text, flags=re.M)
+    if has_copy and not t.get('structural'):
+        text = '#[derive(Clone, Copy)]\n' + text
     if t.get('structural'):
         # fieldless enum compared with `==` in the code: derived PartialEq is structural equality
         text = '#[derive(PartialEq, Eq, Clone, Copy, Structural)]\n' + text
@@ -165,7 +169,7 @@ def build_unit(unit, canary=False, mutate=None, strict=True, only=None):
     # functions grouped by emit container, in unit order
     groups = []
     for f in unit['functions']:
-        if only and fkey(f).split('::')[-1] not in only:
+        if only and fkey(f).split('::')[-1] not in only and fkey(f) not in only:
             continue
         cont = f.get('emit_impl', ('impl ' + f['impl']) if f.get('impl') else None)
         if groups and groups[-1][0] == cont:
